@@ -15,6 +15,9 @@ import numpy as np
 
 from mc.core import Outcome
 from mc.oracles import grpI_exact as X
+from mc.oracles import grpI_variants as VR
+
+_VARIANTS = VR.VARIANTS + [("id", "C", "float", False)]
 
 PROPERTY = "C29"
 LEVEL = "exploration"
@@ -33,6 +36,11 @@ ASSUMPTIONS = [
     "intersection (an implementation that inserts extra subdivision points in the middle of a "
     "segment would be reported; the function under test never does this)",
     "points not referenced by any output edge are ignored; the tag_info return value is not judged",
+    "each presentation is given in one of five representations chosen by a fixed rotation: plain, "
+    "translated by 1000 (C order, read-only), scaled by 2^-10 (Fortran order, read-only), scaled by 2^10, "
+    "int64 points (Fortran order, read-only); the maps are exact, returned points are mapped back before "
+    "judging (tol=1e-8 default stays >= 1000x below the smallest vertex separation 2^-10/81)",
+    "purity: p and e must be bitwise unchanged after the call (read-only inputs must be accepted)",
 ]
 BOUNDS = {
     "quick": "{0,1,2}^2 (36 segments): all 630 pairs x 16 presentations (2 orders x 4 orientation "
@@ -223,25 +231,35 @@ def _run_one(out: Outcome, segs, subset, n, mode, per_cat):
     nontrivial = any(r != "none" for r in rel)
     cls_base = "+".join(sorted(rel))
     key = (n,) + tuple(subset) if nontrivial else None
-    for order, flips, share in _presentations(len(subset), mode):
-        p, e, presented = _build_input(base, order, flips, share)
+    for ipres, (order, flips, share) in enumerate(_presentations(len(subset), mode)):
+        p0, e0, presented = _build_input(base, order, flips, share)
+        # rotating representation / similarity variant (every 5th presentation is plain)
+        v = _VARIANTS[(ipres + sum(subset)) % len(_VARIANTS)]
+        p = VR.make(p0, v)
+        e = VR.represent(e0, v[1], "int", v[3])
         p_in, e_in = p.copy(), e.copy()
+        pur = VR.Purity(p=p, e=e)
         try:
             res = intersections.split_intersecting_segments_2d(p, e, return_argsort=True)
+            if v[0] != "id" and isinstance(res, tuple) and len(res) == 4:
+                res = (VR.inv(res[0], v[0]),) + tuple(res[1:])
             err, detail, ne = _judge(presented, res)
         except Exception as ex:
             err, detail, ne = "raised on valid input", repr(ex), 0
+        if err is None and pur.changed():
+            err, detail = "input array modified: " + ",".join(pur.changed()), None
         if err is not None:
             per_cat[err] = per_cat.get(err, 0) + 1
             if per_cat[err] <= 2:
                 out.violate(
                     "split_intersecting_segments_2d: " + err, detail=detail,
-                    p=p_in, e=e_in, segments=[[list(a), list(b)] for a, b in presented],
+                    p=p_in, e=e_in, variant=VR.name(v), segments=[[list(a), list(b)] for a, b in presented],
                     returned=_returned(None if err.startswith("raised") else res),
                 )
             out.ev("VIOLATION/" + cls_base, key)
         else:
             out.ev(f"{cls_base}/{'shared' if share else 'dup'}", key)
+            out.extra["variant " + VR.name(v)] = out.extra.get("variant " + VR.name(v), 0) + 1
         if not out.samples and "X" in rel and "T" in rel:
             out.samples.append({"segments": [[list(a), list(b)] for a, b in presented], "relations": rel,
                                 "output_edges": int(ne)})
